@@ -401,6 +401,10 @@ func (pg *peerGater) removePeerStats(p peer.ID, outbound bool) {
 	}
 	if st.connected == 0 {
 		st.expire = time.Now().Add(pg.params.RetainStats)
+	}
+	// the stats are shared by all peers behind the same IP: forget this peer when its outbound stream
+	// closes even if other peers behind that IP are still connected
+	if outbound || st.connected == 0 {
 		delete(pg.peerStats, p)
 	}
 }
